@@ -32,12 +32,16 @@ theorem pe_raiseSig (st : St) (s : Int) : PendExt st (raiseSig st s) := by
   · split
     · exact PendExt.of_eq rfl
     · split
-      · intro x hx
-        show x ∈ setInsert s st.pendingSig
-        unfold setInsert
+      · unfold sigRecord
         split
-        · exact hx
-        · exact List.mem_cons_of_mem _ hx
+        · intro x hx
+          show x ∈ setInsert s st.pendingSig
+          unfold setInsert
+          split
+          · exact hx
+          · exact List.mem_cons_of_mem _ hx
+        · exact PendExt.of_eq rfl
+        · exact PendExt.refl st
       · split
         · exact PendExt.of_eq rfl
         · exact PendExt.refl st
@@ -132,11 +136,27 @@ theorem pe_ensureSigchld (st : St) : PendExt st (ensureSigchld st) := by
   · exact (pe_watchSignal _ _ _ _).trans (PendExt.of_eq rfl)
 
 
+theorem pe_setNotify (st : St) (a : Nat) (n : Option Nat) : PendExt st (setNotify st a n) := by
+  unfold setNotify
+  exact pe_setW st a { st.getW a with notify := n }
+
+theorem pe_linkNotified (r : St × Nat) (a : Nat) (flags : Nat) : PendExt r.1 (linkNotified r a flags) := by
+  unfold linkNotified
+  exact ((pe_setNotify r.1 a (some r.2)).trans (pe_insertWatch _ _ _ _)).trans (pe_with_procs _ _)
+
+theorem pe_clearNotify (st : St) (a : Nat) : PendExt st (clearNotify st a) := by
+  unfold clearNotify
+  split
+  · exact pe_setNotify st a none
+  · exact PendExt.refl _
+
 theorem pe_linkProcess (st : St) (a : Nat) (pid : Int) (flags : Nat) : PendExt st (linkProcess st a pid flags) := by
   unfold linkProcess
   simp only []
   split
-  · exact ((pe_waitpid _ _).trans (pe_setWstatus _ _ _)).trans (pe_watchLater _ _ _ _)
+  · split
+    · exact (((pe_waitpid _ _).trans (pe_setWstatus _ _ _)).trans (pe_watchLater _ _ _ _)).trans (pe_linkNotified _ _ _)
+    · exact ((pe_waitpid _ _).trans (pe_setWstatus _ _ _)).trans (pe_watchLater _ _ _ _)
   · exact ((pe_waitpid _ _).trans (pe_insertWatch _ _ _ _)).trans (pe_with_procs _ _)
 
 
@@ -188,8 +208,18 @@ theorem pe_cancelFound (st : St) (a : Nat) (w : Watch) (l : List Nat) : PendExt 
   exact ((((pe_setListOf st _ _).trans (pe_cancelNotify _ a w)).trans (pe_cancelHook _ w.type w.evi)).trans (pe_free _ a)).trans
     (pe_cancelRest _ _)
 
-theorem pe_watchCancel (st : St) (a : Nat) : PendExt st (watchCancel st a) := by
-  unfold watchCancel
+theorem pe_cancelDetached (st : St) (a : Nat) : PendExt st (cancelDetached st a) := by
+  unfold cancelDetached
+  exact (pe_cancelNotify st a _).trans (pe_setW _ _ _)
+
+theorem pe_laterPre (st : St) (a : Nat) : PendExt st (laterPre st a) := by
+  unfold laterPre
+  split
+  · exact (pe_setW _ _ _)
+  · exact PendExt.refl _
+
+theorem pe_watchCancel0 (st : St) (a : Nat) : PendExt st (watchCancel0 st a) := by
+  unfold watchCancel0
   split
   · exact PendExt.refl st
   · split
@@ -199,9 +229,19 @@ theorem pe_watchCancel (st : St) (a : Nat) : PendExt st (watchCancel st a) := by
       · split
         · exact (pe_fail st _)
         · split
-          · exact PendExt.refl st
+          · split
+            · exact pe_cancelDetached st a
+            · exact PendExt.refl st
           · exact pe_cancelFound st a _ _
 
+
+theorem pe_watchCancel (st : St) (a : Nat) : PendExt st (watchCancel st a) := by
+  unfold watchCancel
+  split
+  · split
+    · exact (pe_watchCancel0 st a).trans (pe_watchCancel0 _ _)
+    · exact pe_watchCancel0 st a
+  · exact pe_watchCancel0 st a
 
 theorem pe_with_slots (st : St) (l : List SlotRec) : PendExt st { st with slots := l } := PendExt.of_eq rfl
 
@@ -224,11 +264,13 @@ theorem pe_doRegister (st : St) (k : Int) (reg : St → St × Nat) (h : ∀ s, P
     · exact (h st).trans (pe_with_slots _ _)
 
 
+theorem pe_with_cancelReq (st : St) (l : List Int) : PendExt st { st with cancelReq := l } := PendExt.of_eq rfl
+
 theorem pe_doCancel (st : St) (k : Int) : PendExt st (doCancel st k) := by
   unfold doCancel
   split
   · exact (pe_emit _ _)
-  · exact pe_watchCancel _ _
+  · exact (pe_with_cancelReq _ _).trans (pe_watchCancel _ _)
 
 
 theorem pe_runAct (st : St) (act : Act) : PendExt st (runAct st act) := by
@@ -399,7 +441,7 @@ theorem pe_processNotify (st : St) (a : Nat) : PendExt st (processNotify st a) :
   unfold processNotify
   split
   · exact (pe_fail _ _)
-  · exact pe_invokeWatch _ _ _ _
+  · exact (pe_clearNotify _ _).trans (pe_invokeWatch _ _ _ _)
 
 
 theorem pe_laterCb (st : St) (a : Nat) : PendExt st (laterCb st a) := by
@@ -422,10 +464,12 @@ theorem pe_laterLoopT (l : List Nat) : ∀ st : St, PendExt st (laterLoopT st l)
     · split
       · exact (pe_fail _ _)
       · split
-        · exact pe_laterCb _ _
+        · exact (pe_free _ a).trans (ih _)
         · split
-          · exact (pe_laterCb _ _).trans (pe_fail _ _)
-          · exact ((pe_laterCb _ _).trans (pe_free _ a)).trans (ih _)
+          · exact ((pe_laterPre st a).trans (pe_laterCb _ a))
+          · split
+            · exact (((pe_laterPre st a).trans (pe_laterCb _ a))).trans (pe_fail _ _)
+            · exact ((((pe_laterPre st a).trans (pe_laterCb _ a))).trans (pe_free _ a)).trans (ih _)
 
 
 theorem pe_laterLoop (l : List Nat) (st : St) : PendExt st (laterLoop st l) := pe_laterLoopT l st
@@ -620,7 +664,7 @@ theorem dispatchSignals_logged (fuel : Nat) (st : St) (k : KInv st) (hok : (disp
     whatever they did; every harness watch of such a signal that is in the list then and still at the end of
     the iteration has its FIRE entry in the log of the iteration. -/
 theorem tick_signal_reaches_logged (fuel : Nat) (st : St) (nohang : Bool) (k : KInv st) (hs : st.cfg.errnoSaved = true)
-    (hok0 : st.isOk = true) (hok1 : (nextTimerMsec st).1.isOk = true)
+    (ho : st.observer = .self) (hok0 : st.isOk = true) (hok1 : (nextTimerMsec st).1.isOk = true)
     (hok2 : (ppoll (nextTimerMsec st).1 (tickTimeout nohang (nextTimerMsec st).2)).1.isOk = true)
     (hint : (ppoll (nextTimerMsec st).1 (tickTimeout nohang (nextTimerMsec st).2)).2 = none)
     (hok3 : (invokeTimers fuel (ppoll (nextTimerMsec st).1 (tickTimeout nohang (nextTimerMsec st).2)).1).isOk = true)
@@ -637,7 +681,7 @@ theorem tick_signal_reaches_logged (fuel : Nat) (st : St) (nohang : Bool) (k : K
   have kT : KInv (invokeTimers fuel (ppoll (nextTimerMsec st).1 (tickTimeout nohang (nextTimerMsec st).2)).1) :=
     (((g3_nextTimerMsec st).trans (g3_ppoll _ _)).kstep.trans (k_invokeTimers _ _)) k
   intro s hsr hpend b hb hfin hsig hslot
-  have hp1 := (ppoll_eintr _ _ hint).2.2 s hpend
+  have hp1 := (ppoll_eintr _ _ (by rw [observer_nextTimerMsec]; exact ho) hint).2.2 s hpend
   have hp2 := pe_invokeTimers fuel _ s hp1
   exact dispatchSignals_logged fuel _ kT hok s hsr hp2 b hb hfin hsig hslot
 
